@@ -1,6 +1,7 @@
 package rules
 
 import (
+	"go/token"
 	"go/types"
 
 	"golang.org/x/tools/go/ssa"
@@ -156,6 +157,65 @@ func c30(c *core.Ctx) {
 				ok, why := fresh(args[2], 0)
 				c.Ob("C30.fresh", fname(f)+"·fresh config per connection", pos(c, call), ok, "the configuration handed to NewServerSecureChannel is "+why)
 			}
+		}
+	}
+	// the peer's certificate is looked at whenever the requested mode asks for security
+	c.Rule("C30.cert", "handleOpenSecureChannelRequest answers a request whose SecurityMode is not None only after the peer's certificate was parsed (a failure refuses the request): evaluated under `SecurityMode != None`, no nil-error return is reachable without passing the parse of Config.RemoteCertificate — however the guard is spelled. A guard on the policy instead lets policy None with mode Sign through, a pair no server configuration enables", 1)
+	if h := fn(c, "uasc", "SecureChannel", "handleOpenSecureChannelRequest"); h != nil {
+		remoteCert := field(c, "uasc", "Config", "RemoteCertificate")
+		modeF := field(c, "uasc", "Config", "SecurityMode")
+		if remoteCert != nil && modeF != nil {
+			leaf := func(v ssa.Value) (bool, bool) {
+				cmp, neg, ok := ssax.AsCmp(v)
+				if !ok {
+					return false, false
+				}
+				x, y := cmp.X, cmp.Y
+				if _, isK := ssax.ConstInt(x); isK {
+					x, y = y, x
+				}
+				k, isK := ssax.ConstInt(y)
+				if !isK || k != 1 || loadedField(x).f != modeF { // ua.MessageSecurityModeNone == 1
+					return false, false
+				}
+				val := cmp.Op == token.NEQ
+				if cmp.Op != token.NEQ && cmp.Op != token.EQL {
+					return false, false
+				}
+				if neg {
+					val = !val
+				}
+				return val, true
+			}
+			parses := func(in ssa.Instruction) bool {
+				call, ok := in.(ssa.CallInstruction)
+				if !ok {
+					return false
+				}
+				for _, a := range call.Common().Args {
+					if loadedField(a).f == remoteCert {
+						return true
+					}
+				}
+				return false
+			}
+			n, bad := 0, 0
+			var where *ssa.Return
+			for _, r := range ssax.Returns(h) {
+				if r.Block() == h.Recover || len(r.Results) == 0 || !ssax.IsNil(ssax.RetVal(r, len(r.Results)-1)) {
+					continue
+				}
+				n++
+				if ssax.GuidedReachAvoid(h, r, parses, leaf) {
+					bad++
+					where = r
+				}
+			}
+			at := c.P.Pos(h.Pos())
+			if where != nil {
+				at = pos(c, where)
+			}
+			c.Ob("C30.cert", fname(h)+"·secured mode ⇒ peer certificate parsed", at, n > 0 && bad == 0, fmtInt(n)+" success return(s); reachable under SecurityMode != None without parsing the peer's certificate: "+fmtInt(bad))
 		}
 	}
 	// advertise
